@@ -89,6 +89,7 @@ pub trait VectorMath {
                 f_add(f_mul(a, x.vw()[i]), f_mul(b, y.vw()[i])),
             final(self).vw() == final(r).vw();
     fn dot(&self, y: &Self) -> (r: F) ensures r == vm_dot(self.vw(), y.vw());
+    fn sum(&self) -> (r: F) ensures r == fold_sum(self.vw(), self.vw().len() as int);
     fn sumsq(&self) -> (r: F) ensures r == vm_sumsq(self.vw());
     fn norm(&self) -> (r: F) ensures r == vm_norm(self.vw());
     fn norm_inf(&self) -> (r: F) ensures r == vm_norm_inf(self.vw());
